@@ -750,7 +750,7 @@ def namespace_rules(ctx, prog, rule_ns, rule_axis, rule_proto):
         ctx.ob(rule_ns, "ns-blind/%s/%s" % (short(s["owner"]), s["tag"]), s["ns_aware"],
                "%s matches elements with has_tag_name(%r) by local name only: a foreign-namespace element <ext:%s> placed before the standard one is taken for it" % (s["owner"], s["tag"], s["tag"].strip("<>")),
                where=s["line"])
-    ctx.floor(rule_ns, "element lookups in the reader", n, 30, semantic=False)
+    ctx.floor(rule_ns, "element lookups in the reader", n, 20, semantic=False)
     for a in axis_sites(prog):
         ctx.ob(rule_axis, "descendants/%s/%s" % (short(a["fn"]), ",".join(a["tags"])), False,
                "%s searches %s with descendants(): an element of that name nested anywhere below (e.g. inside extension content) is accepted, not only a direct child" % (a["fn"], a["tags"]), where=a["line"])
